@@ -8,6 +8,8 @@ from .. import gen, lang, history, monitors
 from ..proggen import ProgGen, type_of
 from ..rng import Streams
 
+from ..model import runaway
+
 ID = 'C07'
 LEVEL = 'exploration'
 TIERS = {'quick': 30000, 'thorough': 1200000}
@@ -87,6 +89,8 @@ def generate(seed, tier):
             prog = g.program()
             ops.append({'op': 'eval', 'prog': prog, 'style': gen.style(S['render']), 'kinds': sorted(g.kinds), 'space': si})
         out = model.run(prog, names=cur if si else None)
+        if runaway(out):
+            ops.pop()        # a time / memory bomb for both worlds: not part of the history
         if out[0] == 'unspec':
             break
     return {'world': world, 'ops': ops}
